@@ -25,7 +25,9 @@ OnEmit(e) ==
   THEN << <<"message_form", d.form = "community">>, <<"version", d.version = i.version>>, <<"community", d.community = i.community>> >>
        \o PduClauses(d.pdu, i)
   ELSE << <<"message_form", d.form = "v3">>, <<"version", d.version = <<3>>>>,
-          <<"v3_header_msgid", d.msgid = i.msgid>>, <<"v3_header_maxsize", d.maxsize # <<0>>>>,
+          \* msgID: the property does not tie it to the request-id; RFC 3412 wants an INTEGER (0..2147483647).  Accepted: the request-id itself
+          \* (what the library does) or any value of that range
+          <<"v3_header_msgid", d.msgid = i.msgid \/ (Len(d.msgid) <= 4 /\ d.msgid[1] < 128)>>, <<"v3_header_maxsize", d.maxsize # <<0>>>>,
           <<"v3_header_flags", d.flags = i.flags>>, <<"v3_header_secmodel", d.secmodel = <<3>>>>,
           <<"v3_secparams_engine", d.engine = i.engine>>, <<"v3_secparams_boots", d.boots = i.boots>>,
           <<"v3_secparams_time", d.time = i.time>>, <<"v3_secparams_user", d.user = i.user>>,
